@@ -116,7 +116,12 @@ def write_klatt(rng, xmax):
 
     def rpts():
         n = rng.randint(0, 5) if rng.random() < 0.93 else rng.randint(10, 13)      # now and then two-digit point indices
-        times = sorted(set(min(round(rng.uniform(0, xmax), rng.randint(1, 12)), xmax) for _ in range(n)))
+        times = set(min(round(rng.uniform(0, xmax), rng.randint(1, 12)), xmax) for _ in range(n))
+        if rng.random() < 0.15:
+            # points on the first samples of a recording: times far below 1e-4 s with all their digits
+            r = rng.choice([22050, 44100, 48000, 16000, 96000])
+            times |= set(k / r for k in rng.sample(range(1, 9), rng.randint(1, 3)) if k / r <= xmax)
+        times = sorted(times)
         return [(tok(rng, t), tok(rng, rnum(rng))) for t in times]
 
     def null(name):
